@@ -230,12 +230,19 @@ def _script(call):
 class InlineFn:
     """Execute another repository function (real body) as part of this path."""
 
-    def __init__(self, ref):
+    def __init__(self, ref, extra_globals=None):
         self.ref = ref
+        self.extra = extra_globals or {}
 
     def __call__(self, ctx, *args, **kwargs):
+        from pyvc.interp import module_level_names
         fn = extract.get(self.ref)
-        return ctx.interp.call_function(fn.node, args, kwargs)
+        it = ctx.interp
+        # names defined in the inlined function's own module are "known but unmodelled", not unbound
+        it.module_names = set(it.module_names) | module_level_names(extract.module_ast(fn.module)[1])
+        for k, v in self.extra.items():
+            it.globals.setdefault(k, v)
+        return it.call_function(fn.node, args, kwargs)
 
 
 class ReplaceInit(Contract):
